@@ -178,7 +178,7 @@ ADDENDA2 = {
  "C07": "Later: the relation walk and the polygon relations regenerated as step equations of the model (translator_c07, 357 ties). Walk answers: true is sound, false is exact, raw boolean = crossing or wedge or centre shortcut; compareBoundary walk = exact relation in full, contains / intersects under the single necessary hypothesis CenterSound (C07_WalkSound.lean).",
  "C09": "Later: all 33 decoder functions regenerated as Dec-monad programs and proved EQUAL to the model decoders of the round-trip theorems (translator_c15b).",
  "C10": "Later: bound functions tied / pinned (translator_c07).",
- "C12": "Later: the repaired margin 2*dblEpsilon of Cell.ContainsPoint is PROVED sufficient for every float point and every ancestor (C12_Margin.lean; exactly tight in the proof, 1.25 attained). Point-target Distance lower bound (2^-46) and MaxDistance upper bound (2^-45) PROVED for all valid cells and unit-ish points; attained in the vertex branch; the edge-branch attained claim is refuted (finding D58) (C12_Distance.lean).",
+ "C12": "Later: the repaired margin 2*dblEpsilon of Cell.ContainsPoint is PROVED sufficient for every float point and every ancestor (C12_Margin.lean; exactly tight in the proof, 1.25 attained). Point-target Distance lower bound (2^-46) and MaxDistance upper bound (2^-45) PROVED for all valid cells and unit-ish points; the proof found defect D58 (edge branch decided on rounding noise near the pole of an edge's great circle), repaired; on the repaired code ATTAINED is proved in all branches without proviso (C12_Distance.lean: distance_lower_bound 2^-45, maxDistance_upper_bound 2^-44, distance_attained).",
  "C13": "Later: target objects with their inner state are in the model (C13_Targets.lean), target methods regenerated; footprint obligation for iterator creation sites.",
  "C14": "Later: the footprint of the Go code is a regenerated decidable obligation linked to the proved protocol model (C14_Footprint.lean).",
  "C15": "Later: the IR guards are tied to the regenerated model decoders (C15_Decode). Decoded values are PROVED safe to query through the Shape accessors (decodePolygon_usable) and to re-encode (C15_Usable.lean); new correspondence op c15shape.",
